@@ -22,6 +22,7 @@ from gv.props.shared import unfolded
 from gv.props import describe
 from gv.props.shared import branch_conditions
 from gv.props.shared import conj_literals
+from gv.dataflow import SymValues
 from gv.report import Ctx
 from gv.report import cname
 
@@ -690,6 +691,27 @@ def check_cascade_tables(ctx: Ctx) -> None:
                 missing = sorted({"tolerance", "max_mda_iter"} - set(names))
                 ctx.ob("6.6-cascade", cname(rel, cn), not missing, f"{cn} cascades {names} to its inner MDAs but not {missing}: a value set on the composed MDA's settings then stays there, the inner MDAs keep their own (looser) one and the composition returns couplings that are not converged to what was asked", node=st, stmt="tolerance and max_mda_iter are cascaded")
     ctx.floor("6.6-cascade", 2)
+    # the cascade ASSIGNS the settings of each sub-MDA (validated assignment): that is what makes a sub-MDA that is
+    # itself composed cascade further down; writing the values into its __dict__ stops the cascade at the first level
+    CMS = "mda/composed_mda_settings.py"
+    g = ctx.index.method(CMS, "ComposedMDASettings", "__cascade_settings")
+    con = cname(CMS, "ComposedMDASettings", "__cascade_settings")
+    loops = [l_ for l_ in stmts_of(g) if isinstance(l_, ast.For) and norm_stmt(l_.iter) == "self._sub_mdas"]
+    ok = len(loops) == 1
+    if ok:
+        sub = dotted(loops[0].target)
+        body_nodes = [n_ for b_ in loops[0].body for n_ in ast.walk(b_)]
+        assigns = [c for c in body_nodes if isinstance(c, ast.Call) and ((isinstance(c.func, ast.Attribute) and c.func.attr == "__setattr__" and norm_stmt(c.func.value) == f"{sub}.settings" and len(c.args) == 2) or (dotted(c.func) == "setattr" and len(c.args) == 3 and norm_stmt(c.args[0]) == f"{sub}.settings"))]
+        raw = [n_ for n_ in ast.walk(g) if isinstance(n_, ast.Attribute) and n_.attr in ("__dict__", "model_fields_set", "__pydantic_fields_set__")] + [c for c in ast.walk(g) if isinstance(c, ast.Call) and last_attr(c) in ("model_construct", "__setattr__") and dotted(c.func).startswith("object.")]
+        inner = [l_ for l_ in body_nodes if isinstance(l_, ast.For) and norm_stmt(l_.iter) == "self._settings_names_to_be_cascaded"]
+        ok = len(assigns) == 1 and not raw and len(inner) == 1
+        if ok:
+            name = dotted(inner[0].target)
+            a = assigns[0]
+            nm, val = (a.args[0], a.args[1]) if len(a.args) == 2 else (a.args[1], a.args[2])
+            svg = SymValues(g)
+            ok = dotted(nm) == name and all(t in (f"self.__getattribute__({name})", f"getattr(self, {name})") for t in svg.texts(val))
+    ctx.ob("6.6-cascade", con, bool(ok), "every cascaded setting is ASSIGNED (setattr) on the settings of every sub-MDA, with the value it has here: the assignment is validated and makes a composed sub-MDA cascade it to its own sub-MDAs; a write into __dict__ leaves the inner solvers with their old tolerance", node=(loops or [g])[0], stmt="sub_mda.settings.<name> = self.<name> for every cascaded name")
 
 
 def check_sequential_stop(ctx: Ctx) -> None:
